@@ -153,6 +153,8 @@ type State struct {
 	lastCall string       // site of the most recent call made by the function under contract on this path
 	txnCount int          // database transactions completed on this path
 	strConvs []strConv    // []byte(s) conversions made on this path: the fresh array and the string it holds
+	epoch    string       // set when every heap was havocked: heaps first touched afterwards are not the entry heaps
+	epochAlloc *Term      // the allocation counter at that point
 }
 
 type strConv struct {
@@ -170,7 +172,7 @@ type guardedMap struct {
 }
 
 func (s *State) clone() *State {
-	t := &State{alloc: s.alloc, clock: s.clock, gmaps: s.gmaps[:len(s.gmaps):len(s.gmaps)], txnCount: s.txnCount, lastCall: s.lastCall, lastRecv: s.lastRecv, strConvs: s.strConvs[:len(s.strConvs):len(s.strConvs)]}
+	t := &State{alloc: s.alloc, clock: s.clock, gmaps: s.gmaps[:len(s.gmaps):len(s.gmaps)], txnCount: s.txnCount, lastCall: s.lastCall, lastRecv: s.lastRecv, strConvs: s.strConvs[:len(s.strConvs):len(s.strConvs)], epoch: s.epoch, epochAlloc: s.epochAlloc}
 	t.pc = append([]string{}, s.pc...)
 	t.heaps = make(map[string]*Term, len(s.heaps))
 	for k, v := range s.heaps {
@@ -247,6 +249,7 @@ type Obligation struct {
 
 // VC is the verification context of one function under contract.
 type VC struct {
+	iptrBase map[string]*Term // materialised interior pointers: the object each points into
 	eng           *Engine
 	fn            *ssa.Function
 	contract      *Contract
@@ -319,6 +322,21 @@ func (vc *VC) fresh(hint string, s *Sort) *Term {
 // heap returns the current term of a heap, declaring its initial value on first use.
 func (vc *VC) heap(st *State, name string, s *Sort) *Term {
 	if t, ok := st.heaps[name]; ok {
+		return t
+	}
+	if st.epoch != "" {
+		// everything was havocked earlier on this path (a call without a frame, a loop that may write anything):
+		// a heap that is touched for the first time only now is what that havoc left, not the heap of the entry state
+		init := name + "_e" + st.epoch
+		first := !vc.declSet[init]
+		vc.declare(init, s)
+		t := T(s, init)
+		st.heaps[name] = t
+		if first && strings.HasPrefix(name, "H_") && s.Elem != nil && st.epochAlloc != nil {
+			if f := vc.heapFacts(t, s.Elem, st.epochAlloc); f != nil {
+				vc.axiom(f.S)
+			}
+		}
 		return t
 	}
 	init := name + "_0"
@@ -512,6 +530,10 @@ func (vc *VC) ptrTerm(st *State, p *Ptr, where string) *Term {
 	n, h := vc.objHeap(st, ts)
 	vc.setHeap(st, n, Store(h, r, v))
 	vc.note("interior pointer materialised as pointer to a copy at %s", where)
+	if vc.iptrBase == nil {
+		vc.iptrBase = map[string]*Term{}
+	}
+	vc.iptrBase[r.S] = p.Base // allocated(..) in specifications speaks about the object pointed into
 	return r
 }
 
